@@ -158,7 +158,22 @@ def cmd_check(args):
         u, cfg, vac, path, text, log = j
         rs = []
         for s in (seeds if not vac else [None]):
-            rs.append(M.run_verus(path, seed=s, use_cache=(tier == 'quick')))
+            r = M.run_verus(path, seed=s, use_cache=(tier == 'quick'))
+            if not vac and not r.get('tool_error') and not r.get('ok'):
+                # second opinion before anything is reported as refuted: the same obligations with Verus' loop isolation
+                # switched off (facts about locals bound before a loop stay visible inside it -- e.g. a field read hoisted
+                # into a `let`).  If that run discharges EVERY obligation of the file it is a complete proof and replaces
+                # the first verdict; otherwise the first verdict stands.
+                fails, undec = M.classify(r['diags'], M.FileMap(text, u.props), path, u.name, cfg)
+                if fails and not undec:
+                    alt = path[:-3] + '_iso.rs'
+                    with open(alt, 'w') as fh:
+                        fh.write(re.sub(r'(// @FN [^\n]*\n)', r'\1#[verifier::loop_isolation(false)]\n', text))
+                    r2 = M.run_verus(alt, seed=s, use_cache=(tier == 'quick'))
+                    if r2.get('ok') and not r2.get('tool_error') and r2.get('errors', 1) == 0:
+                        r2['second_opinion'] = 'loop_isolation(false)'
+                        r = r2
+            rs.append(r)
         return j, rs
 
     results = []
@@ -172,10 +187,13 @@ def cmd_check(args):
     verified_fns = 0
     solver_ms = 0
     vac_expected = vac_refuted = 0
+    second_opinions = []
     files = 0
     for (u, cfg, vac, path, text, log), rs in results:
         fmap = M.FileMap(text, u.props)
         for r in rs:
+            if r.get('second_opinion'):
+                second_opinions.append(dict(unit=u.name, cfg=cfg, mode=r['second_opinion']))
             if r.get('cached'):
                 cache_hits += 1
             else:
@@ -364,6 +382,7 @@ def cmd_check(args):
             bounded_checks=[dict(harness=b['harness'], status=b['status'], bound=b['bound'], wall_s=b['wall_s']) for b in bounded],
             solver_time_s=round(solver_ms / 1000.0, 2),
             vacuity_twins=dict(expected_refuted=vac_expected, refuted=vac_refuted),
+            proved_with_loop_isolation_off=second_opinions,
             rewrites=rewrites[:400],
             undecided=undecided[:50],
             failures_outside_property=[dict(unit=f['unit'], cfg=f['cfg'], fn=f['fn'], tags=f['tags'], props=f['props']) for f in other_fail][:50],
